@@ -371,12 +371,12 @@ var _ = sourcebundle.OpenDir
 func c19MorePhases() []*fw.Phase {
 	unpack := &fw.Phase{
 		Name: "unpack-hostile-byte-streams", CrashVerdict: c19Crash,
-		N:   fw.Fixed(40000, 1500000),
+		N:   fw.Fixed(100000, 1500000),
 		Run: c19Unpack,
 	}
 	opendir := &fw.Phase{
 		Name: "opendir-manifest-documents", CrashVerdict: c19Crash,
-		N:   fw.Fixed(20000, 500000),
+		N:   fw.Fixed(60000, 500000),
 		Run: c19OpenDir,
 	}
 	trees := &fw.Phase{
